@@ -63,7 +63,7 @@ theorem node_get_keeps_slots (s : Shared) (b : Bool) (ng : NG) (m : Nat) (hm : m
       split <;> simp [Shared.setNode, upd, hne]
   | _ =>
     simp only [stepNG, fastOf] <;> (repeat' split) <;>
-      (first | rfl | (dsimp only; first | rfl | (apply setNode_fast; intro _; rfl)))
+      (first | rfl | (dsimp only; first | rfl | (apply setNode_fast; intro _; rfl) | simp))
 
 /-- the owner's load writes a fast slot only where it has just read `NONE` (the probe), with a
     swap; every other step of a load leaves all non-`NONE` fast slots alone or pays off its own debt -/
